@@ -759,6 +759,39 @@ async fn rpc_inner(
     result
 }
 
+/// One RPC through a `Peer` handle the application obtained earlier (it pins the connection that
+/// was registered then); logged like any other call.
+pub async fn rpc_via_handle(
+    run: &Arc<Run>,
+    handle: &mut anemo::Peer,
+    from: i64,
+    mut request: Request<Bytes>,
+    nonce: u64,
+) -> Result<Response<Bytes>, String> {
+    request.headers_mut().insert("nonce".into(), nonce.to_string());
+    run.obs(
+        from,
+        "obs.rpc_call",
+        json!({
+            "nonce": nonce,
+            "to": run.node_of(&handle.peer_id()),
+            "route": request.route(),
+            "len": request.body().len(),
+            "digest": digest(request.body()),
+            "hdigest": headers_digest(request.headers()),
+            "nheaders": request.headers().len(),
+            "handle": true,
+        }),
+    );
+    let result = match tokio::time::timeout(Duration::from_secs(600), handle.rpc(request)).await {
+        Ok(Ok(r)) => Ok(r),
+        Ok(Err(e)) => Err(format!("{e}")),
+        Err(_) => Err("HANG".into()),
+    };
+    log_rpc_result(run, from, nonce, &result, false);
+    result
+}
+
 pub fn log_rpc_result(
     run: &Arc<Run>,
     from: i64,
